@@ -128,7 +128,7 @@ pub fn run(cfg: &Cfg, rep: &mut Report) {
     rep.assumptions.push("vocabulary = frozen reference names; modules are in logical-layout order (a constant or switch whose type is declared later in the stream is not generated)".into());
     let d = db();
     let n_ops = d.insts.len() as u64;
-    let n = cfg.n(n_ops * 10, n_ops * 120);
+    let n = cfg.n(n_ops * 10, n_ops * 2500);
     run_stage(cfg, rep, "loader-modules", n, |idx, rng, r| {
         let must = (idx % n_ops) as usize;
         let mut gen = Gen::new(1000);
@@ -227,7 +227,7 @@ pub fn run(cfg: &Cfg, rep: &mut Report) {
             r.nontrivial(format!("name:{}:{}", crate::gram::kind_name(k), v));
         }
     });
-    let n = cfg.n(6_000, 60_000);
+    let n = cfg.n(6_000, 1_500_000);
     run_stage(cfg, rep, "builder-modules", n, |idx, rng, r| {
         let rp = || crate::util::replay_ref(cfg, "builder-modules", idx);
         let mut scratch = Report::new("C06");
